@@ -18,7 +18,26 @@ _generic.install(globals(), 'C03', methods=('cdf', 'sf'), n_spec=(30, 500))
 SUP = {e['op'].split('.')[0]: e.get('support') for e in SPEC}
 
 
-def extra_run(man, tier, seed):
+EXT = {'real': 'real', 'pos': 'real', 'unit': 'real', 'ge_scale': 'real', 'uniform_ab': 'real', 'circle': 'real', 'gev': 'real'}
+
+
+def search_site(man, site, seed):
+    """A theorem / correspondence at `site` is broken: look for a concrete failing input.  First on the support, then on
+    an EXTENDED domain (points outside the support of continuous laws): C03 itself leaves the CDF partial there, but
+    `Mixture::cdf` evaluates every component's cdf at x, so a component CDF leaving [0,1] or decreasing off its support
+    breaks the property for mixtures whose components have different supports."""
+    base = site.split('.')[0]
+    out = extra_run(man, 'thorough', seed, only=base)['failures']
+    if out:
+        return out
+    out = extra_run(man, 'thorough', seed + 1, only=base, extended=True)['failures']
+    for f in out:
+        f['detail'] = f.get('detail', '') + ' (extended domain: off-support point, reached through Mixture::cdf of components with different supports)'
+        f['extended'] = True
+    return out
+
+
+def extra_run(man, tier, seed, only=None, extended=False):
     """oracle-free checks on the implementation: range [0,1], monotonicity over ordered pairs, sf = 1 - cdf"""
     rng = random.Random(seed * 41 + 4)
     n = 20 if tier == 'quick' else 400
@@ -30,12 +49,19 @@ def extra_run(man, tier, seed):
         d = man['defs'].get(op)
         if d is None or op in skipped or d['name'] != 'cdf' or not e.get('support'):
             continue
+        if only is not None and d['owner'] != only:
+            continue
+        sup = e['support']
+        if extended:
+            if sup not in EXT:
+                continue
+            sup = EXT[sup]
         fields = [f for f, t in structs[d['owner']]]
         sfop = op.replace('.cdf_', '.sf_')
         for kind in (e.get('kinds') or kinds_of(d))[:2]:
             for _ in range(n):
                 pv = gen.struct_value(d['owner'], structs, rng)
-                xs = sorted(support_value(e['support'], pv, fields, kind, rng) for _ in range(4))
+                xs = sorted(support_value(sup, pv, fields, kind, rng) for _ in range(4))
                 base = len(lines)
                 for x in xs:
                     extra = ' 0'.replace('0', '') if not d.get('kbits') else ''
@@ -56,6 +82,8 @@ def extra_run(man, tier, seed):
             continue
         fv = [tok_to_float(v) for v in vals]
         for x, v, l in zip(xs, fv, lines[b:b + 4]):
+            if extended and v != v:
+                continue      # NaN off the support: "partial function", out of scope
             if not (-1e-8 <= v <= 1.0 + 1e-8):
                 failures.append({'site': op, 'case': l, 'impl': repr(v), 'expected': 'cdf in [0,1]', 'observed': 'value' if v == v else 'nan',
                                  'detail': 'range', 'kind': kind, 'params': list(pv), 'x': x})
